@@ -18,6 +18,16 @@ class Env:
         self.km = self.f.keymap(keymode)
         self.vm = self.f.valmap()
         self.numeric = self.f.vk in BOUNDS or self.f.vk == "F"
+        self.variant = "plain"      # "evicted": container operands are stored and ghosts; "subclass": instances of subclasses
+        self._subs = {}
+
+    def ccls(self, kind):
+        cls = self.f.cls(kind, self.impl)
+        if self.variant == "subclass":
+            if kind not in self._subs:
+                self._subs[kind] = type("Sub" + cls.__name__, (cls,), {})
+            return self._subs[kind]
+        return cls
 
     def val(self, j):
         """model value -> family value; numeric families use the number itself"""
@@ -42,9 +52,9 @@ class Env:
             return None
         keys = [self.km.k(k) for k in spec[1]]
         if kind in ("Set", "TreeSet"):
-            return self.f.cls(kind, self.impl)(keys)
+            return self.ccls(kind)(keys)
         if kind in ("Bucket", "BTree"):
-            return self.f.cls(kind, self.impl)(list(zip(keys, [self.val(v) for v in spec[2]])))
+            return self.ccls(kind)(list(zip(keys, [self.val(v) for v in spec[2]])))
         if kind == "list":
             return list(keys)
         if kind == "tuple":
@@ -102,6 +112,14 @@ class Env:
         with sizes(cl, 3, 3):
             a, b = self.build(sa), self.build(sb)
             before = (self.snapshot(sa, a), self.snapshot(sb, b))
+            if self.variant == "evicted":
+                from harness.minijar import Storage, Jar
+                jar = Jar(Storage())
+                for o in (a, b):
+                    if hasattr(o, "_p_oid"):
+                        jar.add(o)
+                jar.commit()
+                jar.minimize()
             try:
                 r = fn(a, b, *weights)
             except TypeError:
